@@ -671,6 +671,48 @@ pub fn program_set(set: &str) -> Vec<Program<SyncFam>> {
         vec![vec![SOp::Lock(0), SOp::Unpark(0), SOp::Unlock(0)], vec![SOp::Unpark(0)]],
     ));
 
+    // --- a scope owner blocked on something else inside the scope body --------------------------
+    let g = |ops: &[SOp]| -> Vec<GOp<SOp>> { ops.iter().cloned().map(GOp::Op).collect() };
+    for scoped in [vec![], vec![SOp::Yield]] {
+        // owner waits on a condvar inside the scope; thread 2 (not scoped) notifies or not
+        for notifier in [vec![], vec![SOp::NotifyOne(0)], vec![SOp::Lock(0), SOp::Set(0, 1), SOp::Unlock(0), SOp::NotifyAll(0)]] {
+            let mut main = vec![GOp::Spawn(2), GOp::ScopeBegin(vec![1])];
+            main.extend(g(&[SOp::Lock(0), SOp::Wait(0, 0), SOp::Unlock(0)]));
+            main.push(GOp::ScopeEnd);
+            main.push(GOp::Join(2));
+            out.push(Program {
+                cfg: cvcfg.clone(),
+                threads: vec![main, g(&scoped), g(&notifier)],
+            });
+        }
+        // owner waits on a barrier inside the scope
+        let bcfg2 = SCfg {
+            mutexes: 0,
+            condvars: 0,
+            barriers: vec![2],
+            onces: 0,
+        };
+        for other in [vec![], vec![SOp::BarrierWait(0)]] {
+            let mut main = vec![GOp::Spawn(2), GOp::ScopeBegin(vec![1])];
+            main.extend(g(&[SOp::BarrierWait(0)]));
+            main.push(GOp::ScopeEnd);
+            main.push(GOp::Join(2));
+            out.push(Program {
+                cfg: bcfg2.clone(),
+                threads: vec![main, g(&scoped), g(&other)],
+            });
+        }
+        // owner blocked on a mutex / parked inside the scope
+        let mut main = vec![GOp::Spawn(2), GOp::ScopeBegin(vec![1])];
+        main.extend(g(&[SOp::Lock(0), SOp::Unlock(0)]));
+        main.push(GOp::ScopeEnd);
+        main.push(GOp::Join(2));
+        out.push(Program {
+            cfg: pm.clone(),
+            threads: vec![main, g(&scoped), g(&[SOp::Lock(0), SOp::Yield, SOp::Unlock(0)])],
+        });
+    }
+
     out.sort_by_key(|p| p.size());
     out
 }
